@@ -794,6 +794,8 @@ def mon_c11(net, obs, opts, mode):
                 continue
             q, want = duty(s), float(T.at[idx, "qext_w"])
             obs.count("exchanger_duties" + ("_negative" if want < 0 else ""))
+            if s["signed_m"] < 0:
+                obs.count("exchanger_duties_reverse_flow")
             obs.maxi("max_rel_duty_dev", abs(q - want) / max(abs(want), 1.0))
             if abs(q - want) > rt * max(abs(want), 1.0) + 1e-3:
                 obs.violate("exchanger_duty", "%s: qext_w=%.8g but m*cp_mean*(Tin-Tout)=%.8g"
